@@ -168,6 +168,17 @@ var props = map[string]propCfg{
 		},
 		MinNontriv: 100,
 	},
+	"C17": {
+		Quick:    tierCfg{Shards: 8, Checks: 1200, Timeout: 4 * time.Minute},
+		Thorough: tierCfg{Shards: 16, Checks: 15000, Timeout: 40 * time.Minute},
+		Rule: "real hosts (their own comments of every kind: licence headers, //go:build lines, package docs, declaration docs, end-of-line and free-standing comments) additionally decorated by a comment injector (unique tokens c17_<n>: end-of-line comments after statements, free-standing comment lines, doc comments and //go:generate directives above top-level declarations, /* */ comments after ',' and '(' inside expressions, a file header), gofmt-stable, with a mined change that rewrites 1..n places. Oracle: (1) the multiset of comment texts of the output is included in that of the input; (2) for every top-level declaration in which the reference rewrites nothing, the list of its doc, inner and trailing comments is unchanged, in order; (3) header and package comments unchanged; (4) free-standing comments between two untouched declarations unchanged. Judged only when the code of the output equals the reference rewrite. " +
+			"Non-trivial = a rewritten declaration whose two neighbours are untouched and commented; distinct by sha256(patch, file).",
+		Assumptions: append([]string{
+			"comments are compared by whitespace-normalised text; empty comments ('//') are ignored; inputs are gofmt-stable so that gofmt's own doc-comment reformatting cannot change them",
+			"declarations correspond by index among non-import declarations (cases where a declaration pattern changes the number of declarations are judged by rule (1) only)",
+		}, modelAssumptions[:1]...),
+		MinNontriv: 50,
+	},
 }
 
 var modelAssumptions = []string{
